@@ -1,7 +1,184 @@
-/- property theorems of C04 (only theorems + non-vacuity examples live here) -/
-import Got.Model.Cache
-import Got.Model.Sharding
-open Got.Model.CacheCore
+/- property theorems of C04 (only theorems + non-vacuity examples live here)
 
-/-- a Load that finds a loading or fresh future (status good) creates no future and no job -/
-theorem C04_no_second_load_core : (loadDecide .good).create = false := rfl
+C04: concurrent Loads of a key share one load and agree on its result.
+  C04_no_second_load*       a Load that finds a loading or fresh future creates no future and no job
+  C04_one_live_loader*      invariant of every reachable state: per key at most one unresolved load-future that Set has
+                            not displaced; hence at most one loader per key running unless Set intervened
+  C04_future_resolves_once* a future is resolved at most once – by the worker that took its job, with the pair that
+                            loader(job.key) returned, job.key being the key the future was created for – or it is
+                            created resolved by Set; once resolved its result never changes, so all Get calls agree
+  C04_shard_in_range*       GetShardingIndex is in [0, count) for every int64 pattern and power-of-two count;
+                            convertPowerOfTwo n is the least power of two ≥ n (n ≤ 2^62)
+"Reachable" = reachable in the LTS `Got.Model.Cache` by ANY finite sequence of actions (any number of clients, keys,
+workers P, queue size J, loader results and durations, ticks, delays; both variants of Load).
+-/
+import Got.Lemmas.CacheOnce
+import Got.Lemmas.CacheLive
+import Got.Lemmas.CacheSharding
+open Got.Model.CacheCore Got.Model.Cache Got.Spec.Cache Got.Lemmas.Cache
+
+/-- status good ⇔ the future is still loading or its result is fresh -/
+theorem C04_good_iff (cfg : Cfg) (s : State) (l : FutId) :
+    statusAt cfg s (some l) = .good ↔
+      (s.fut l).res = none ∨ ∃ r, (s.fut l).res = some r ∧ s.now - (s.fut l).upd < futExpiry cfg r := by
+  cases hr : (s.fut l).res with
+  | none => simp [statusAt_unresolved cfg s l hr]
+  | some r => rw [statusAt_resolved cfg s l r hr, status_good_iff]; simp [futExpiry]
+
+/-- a Load that finds a future whose status is good (loading, or fresh) creates no future and no job: the future
+    store, the map, the job channel and the ghost job table are unchanged and the client carries no job -/
+theorem C04_no_second_load (cfg : Cfg) (s : State) (c : Cid) (k : Key) (ld : Nat) (l : FutId)
+    (hmap : s.map k = some l) (hgood : statusAt cfg s (some l) = .good) :
+    (loadCS cfg s c k ld).nfut = s.nfut ∧ (loadCS cfg s c k ld).fut = s.fut ∧ (loadCS cfg s c k ld).map = s.map ∧
+    (loadCS cfg s c k ld).chan = s.chan ∧ (loadCS cfg s c k ld).jobAt = s.jobAt ∧
+    jobOf ((loadCS cfg s c k ld).cpc c) = none ∧
+    (loadCS cfg s c k ld).cpc c = .ldUnlock (cfg.shardOf k) none (.fetch l) := by
+  simp [loadCS, applyLoad, loadOut, hmap, hgood, loadDecide, jobOf]
+
+/-- … in particular while a load of the key is in flight -/
+theorem C04_no_second_load_in_flight (cfg : Cfg) (s : State) (c : Cid) (k : Key) (ld : Nat) (l : FutId)
+    (hmap : s.map k = some l) (hload : (s.fut l).res = none) :
+    (loadCS cfg s c k ld).nfut = s.nfut ∧ (loadCS cfg s c k ld).chan = s.chan ∧
+    jobOf ((loadCS cfg s c k ld).cpc c) = none := by
+  have := C04_no_second_load cfg s c k ld l hmap ((C04_good_iff cfg s l).2 (Or.inl hload))
+  exact ⟨this.1, this.2.2.2.1, this.2.2.2.2.2.1⟩
+
+example : (exRefreshing 25).map 1 = some 1 ∧ ((exRefreshing 25).fut 1).res = none := by decide
+
+/-- per key at most one unresolved load-future that has not been displaced by Set: such a future is the entry of its
+    key in the map (sweep and Load replace only resolved entries) -/
+theorem C04_one_live_loader (cfg : Cfg) (s : State) (hr : Reachable cfg s) (f g : FutId)
+    (hf : f < s.nfut) (hg : g < s.nfut)
+    (hfr : (s.fut f).res = none) (hgr : (s.fut g).res = none)
+    (hfo : (s.fut f).orphan = false) (hgo : (s.fut g).orphan = false)
+    (hk : (s.fut f).key = (s.fut g).key) : f = g := by
+  have h := inv_reachable cfg s hr
+  have h1 := h.o_map f hf hfr hfo
+  have h2 := h.o_map g hg hgr hgo
+  rw [hk, h2] at h1
+  exact (Option.some.inj h1).symm
+
+/-- hence at most one loader per key is running at any instant, unless Set intervened (orphaned the older load) -/
+theorem C04_one_live_loader_running (cfg : Cfg) (s : State) (hr : Reachable cfg s) (w w' : Wid) (j j' : Job)
+    (hw : s.wpc w = .running j) (hw' : s.wpc w' = .running j') (hk : j.key = j'.key)
+    (ho : (s.fut j.fut).orphan = false) (ho' : (s.fut j'.fut).orphan = false) : w = w' ∧ j = j' := by
+  have h := inv_reachable cfg s hr
+  have hwj : wjob (s.wpc w) = some j := by rw [hw]; rfl
+  have hwj' : wjob (s.wpc w') = some j' := by rw [hw']; rfl
+  have k1 := h.k_worker w j hwj
+  have k2 := h.k_worker w' j' hwj'
+  have unres : ∀ w j, s.wpc w = .running j → (s.fut j.fut).res = none := by
+    intro w j hw
+    have hwj : wjob (s.wpc w) = some j := by rw [hw]; rfl
+    have hst := h.stage j.fut (h.k_worker w j hwj).1
+    unfold StageOK at hst; rw [h.f_worker w j hwj] at hst; simp only [hw, prePub] at hst
+    exact hst.2.2 trivial
+  have e : j.fut = j'.fut :=
+    C04_one_live_loader cfg s hr j.fut j'.fut k1.1 k2.1 (unres w j hw) (unres w' j' hw') ho ho'
+      (by rw [k1.2.1, k2.2.1]; exact hk)
+  have l1 := h.f_worker w j hwj
+  have l2 := h.f_worker w' j' hwj'
+  rw [e, l2] at l1
+  have ew : w = w' := (Loc.worker.inj l1).symm
+  subst ew
+  rw [hw] at hw'
+  exact ⟨rfl, by injection hw'⟩
+
+/-- once resolved, the result of a future never changes – along every continuation of every reachable state -/
+theorem C04_future_resolves_once (cfg : Cfg) (s : State) (hr : Reachable cfg s) (f : FutId) (hf : f < s.nfut) (r : Res)
+    (hres : (s.fut f).res = some r) (acts : List Act) : ((run cfg s acts).fut f).res = some r :=
+  res_stable_run cfg acts s (inv_reachable cfg s hr) f hf r hres
+
+/-- the step that resolves an allocated future is the publication step of the worker that holds its job, the job's
+    key is the key the future was created for, and the future is a load-future -/
+theorem C04_future_resolves_once_by_worker (cfg : Cfg) (s s' : State) (a : Act) (hr : Reachable cfg s)
+    (hs : step? cfg s a = some s') (f : FutId) (hf : f < s.nfut) (r : Res)
+    (h0 : (s.fut f).res = none) (h1 : (s'.fut f).res = some r) :
+    ∃ w j, a = .wk w ∧ s.wpc w = .publish j r ∧ j.fut = f ∧ j.key = (s.fut f).key ∧ (s.fut f).bySet = false ∧
+      (s'.fut f).key = (s.fut f).key := by
+  have h := inv_reachable cfg s hr
+  obtain ⟨hres, hkey⟩ := step_res cfg s s' a hs f hf
+  rcases hres with e | ⟨w, j, r', ha, hw, hj, hr'⟩
+  · rw [e, h0] at h1; cases h1
+  · rw [h1] at hr'; simp only [Option.some.injEq] at hr'; subst hr'
+    have hjok := h.k_worker w j (by rw [hw]; rfl)
+    unfold JobOK at hjok
+    rw [hj] at hjok
+    exact ⟨w, j, ha, hw, hj, hjok.2.1.symm, hjok.2.2, hkey⟩
+
+/-- the pair a worker publishes is the pair its loader invocation returned (`wEnd w r` while running the job) -/
+theorem C04_future_resolves_once_pair (cfg : Cfg) (s s' : State) (a : Act) (hs : step? cfg s a = some s')
+    (w : Wid) (j : Job) (r : Res) (h1 : s'.wpc w = .publish j r) :
+    s.wpc w = .publish j r ∨ (a = .wEnd w r ∧ s.wpc w = .running j) := by
+  by_cases hw : actWorker? a = some w
+  · cases a <;> simp only [actWorker?, Option.some.injEq, reduceCtorEq] at hw <;> subst hw
+    · simp only [step?] at hs
+      split at hs <;> (try split at hs) <;> simp only [Option.some.injEq, reduceCtorEq] at hs
+      subst hs; simp [setWpc] at h1
+    · simp only [step?] at hs
+      split at hs <;> (try split at hs) <;> (try split at hs) <;> simp only [Option.some.injEq, reduceCtorEq] at hs
+      subst hs; simp [setWpc] at h1
+    · simp only [step?] at hs
+      split at hs <;> simp only [Option.some.injEq, reduceCtorEq] at hs
+      subst hs; simp [setWpc] at h1
+    · rename_i r'
+      simp only [step?] at hs
+      split at hs <;> simp only [Option.some.injEq, reduceCtorEq] at hs
+      rename_i j' hw'
+      subst hs
+      simp only [setWpc, upd_same, WPc.publish.injEq] at h1
+      obtain ⟨rfl, rfl⟩ := h1
+      exact Or.inr ⟨rfl, hw'⟩
+    · simp only [step?] at hs
+      unfold wkStep at hs
+      split at hs <;> (try split at hs) <;> simp only [Option.some.injEq, reduceCtorEq] at hs <;> subst hs <;>
+        simp [setWpc] at h1
+      all_goals (split at h1 <;> cases h1)
+  · left
+    have := step_wpc_frame cfg s a w hw
+    unfold step at this; rw [hs] at this
+    simp only [Option.getD_some] at this
+    rw [← this]; exact h1
+
+/-- Set creates its future already resolved with the pair it was given -/
+theorem C04_future_resolves_once_set (s : State) (c : Cid) (k : Key) (r : Res) :
+    ((setCS s c k r).fut s.nfut).res = some r ∧ ((setCS s c k r).fut s.nfut).key = k ∧
+    ((setCS s c k r).fut s.nfut).done = true ∧ (setCS s c k r).map k = some s.nfut := by
+  simp [setCS]
+
+/-- all Get1/Get2 calls on one future return the same pair: what a returned call reports is the (immutable) result -/
+theorem C04_gets_agree (cfg : Cfg) (s : State) (hr : Reachable cfg s) (c c' : Cid) (f : FutId) (r r' : Option Res)
+    (hc : s.cpc c = .done (.pair (some f) r)) (hc' : s.cpc c' = .done (.pair (some f) r')) :
+    r = r' ∧ r = (s.fut f).res ∧ r.isSome = true := by
+  have h := inv_reachable cfg s hr
+  obtain ⟨hf, hd, e⟩ := h.r_pair c f r hc
+  obtain ⟨_, _, e'⟩ := h.r_pair c' f r' hc'
+  have hst := h.stage f hf
+  refine ⟨by rw [e, e'], e, ?_⟩
+  unfold StageOK at hst
+  cases hl : s.jobAt f with
+  | nowhere => rw [hl] at hst; exact absurd hst id
+  | creator c0 => rw [hl] at hst; simp only at hst; rw [hst.2] at hd; cases hd
+  | chan => rw [hl] at hst; simp only at hst; rw [hst.2] at hd; cases hd
+  | worker w => rw [hl] at hst; simp only at hst; rw [hst.1] at hd; cases hd
+  | finished => rw [hl] at hst; simp only at hst; rw [e]; exact hst.2
+
+/-- GetShardingIndex: `int(next) & (count-1)` lies in [0, count) for EVERY 64-bit pattern and every power-of-two
+    count up to 2^62 -/
+theorem C04_shard_in_range (x : BitVec 64) (e : Nat) (he : e ≤ 62) :
+    0 ≤ Got.Model.Sharding.indexOfBits x (2 ^ e) ∧ Got.Model.Sharding.indexOfBits x (2 ^ e) < 2 ^ e :=
+  Got.Lemmas.Sharding.index_in_range x e he
+
+/-- … hence for every key of the ten supported kinds -/
+theorem C04_shard_in_range_key (k : Got.Model.Sharding.TKey) (e : Nat) (he : e ≤ 62) :
+    0 ≤ Got.Model.Sharding.shardIndex (2 ^ e) k ∧ Got.Model.Sharding.shardIndex (2 ^ e) k < 2 ^ e :=
+  Got.Lemmas.Sharding.index_in_range _ e he
+
+/-- convertPowerOfTwo n (n ≤ 2^62) terminates with the least power of two ≥ n -/
+theorem C04_shard_in_range_count (n : Int) (hn : n ≤ 2 ^ 62) :
+    ∃ e, e ≤ 62 ∧ Got.Model.Sharding.convertPowerOfTwo n = some (2 ^ e) ∧ n ≤ ((2 ^ e : Nat) : Int) ∧
+      (e = 0 ∨ ((2 ^ (e - 1) : Nat) : Int) < n) :=
+  Got.Lemmas.Sharding.convertPowerOfTwo_spec n hn
+
+example : Got.Model.Sharding.convertPowerOfTwo 12 = some 16 ∧
+    Got.Model.Sharding.shardIndex 16 (.int (-1)) = 15 ∧ Got.Model.Sharding.shardIndex 16 (.uint8 255) = 15 := by decide
